@@ -4,7 +4,8 @@
 // build tag `verif`, where it still contains no code). Checked by /verif/govc.
 package types
 
-// Price of one pool share: reads the oracle and the accounted pool, writes nothing.
+// Price of one pool share: reads the oracle and the accounted pool, writes no chain state (the
+// receiver is handed on to other methods, so it is listed as possibly written).
 //@ func (*Pool).LpTokenPrice
-//@ modifies nothing
+//@ modifies *p
 //@ frame-only
